@@ -114,6 +114,7 @@ def _run_case(w, req, run_timeout):
                 raise RuntimeError("cannot talk to worker")
         current = None                          # index into mapping
         evs = {}
+        notes = 0
         finished_ok = False
         while True:
             tmo = run_timeout(runs[mapping[current]]) if current is not None else 60.0
@@ -125,9 +126,10 @@ def _run_case(w, req, run_timeout):
                 orig = mapping[current]
                 if msg[0] == "timeout":
                     w.kill()
-                    results[orig] = {"hung": 1, "partial": evs.get(current, [])}
+                    results[orig] = {"hung": 1, "partial": evs.get(current, []), "allocFailed": notes}
                 else:
-                    results[orig] = {"died": signame(msg[1]), "partial": evs.get(current, [])}
+                    results[orig] = {"died": signame(msg[1]), "partial": evs.get(current, []),
+                                     "allocFailed": notes}
                 w.start()
                 abnormal = True
                 pending = [i for i in pending if results[i] is None]
@@ -136,8 +138,12 @@ def _run_case(w, req, run_timeout):
                 w.close()
                 w.start()
                 break
+            if "refusednote" in msg:
+                notes += 1
+                continue
             if "start" in msg:
                 current = msg["run"]
+                notes = 0
                 continue
             if "ev" in msg:
                 evs.setdefault(msg["run"], []).append(msg["ev"])
